@@ -4,6 +4,7 @@
   property names them.
 -/
 import CC.ChaCha.Refine7
+import CC.Thm.C02
 namespace CC.Thm.C11
 open CC CC.Simd CC.ChaCha CC.ChaCha.Spec
 
@@ -110,5 +111,11 @@ theorem nonce_words_fixed (v : Variant) (g : Guts) (i : Nat) :
 example : limitOf ⟨.ietf, 10⟩ = 2 ^ 38 ∧ (2 ^ 38 - 64) + 64 ≤ limitOf ⟨.ietf, 10⟩ ∧
     limitOf ⟨.ietf, 10⟩ < (2 ^ 38 - 64) + 65 := by
   rw [limits]; simp
+
+/-- **Source tie of the glue this property lives in** (the overflow check `o && !self.fresh` with the early `Err`,
+    `self.fresh &= blocks_needed == 0`, the `try_seek` guard, the IETF nonce-word restore on every path, `seek32`'s
+    assertion): the model equals the definitions regenerated from `rustcrypto_impl.rs` on every run — re-export of
+    `CC.Thm.C02.source_glue_match`. -/
+theorem source_glue_match : type_of% @CC.Thm.C02.source_glue_match := CC.Thm.C02.source_glue_match
 
 end CC.Thm.C11
